@@ -111,9 +111,12 @@ Fixpoint digits_fuel (base : N) (upper : bool) (f : nat) (n : N) : text :=
 Definition print_nat (base : N) (upper : bool) (n : N) : text :=
   digits_fuel base upper (S (N.to_nat (N.log2 n))) n.
 
-(* a conversion specification  %[+][ ][0][#][width][.prec][l]conv   (no '-' flag, no '*') *)
+(* a conversion specification  %[+][ ][0][#][width][.prec][length]conv   (no '-' flag, no '*').
+   Length modifiers of the integer conversions are kept by the width of the C type they name:
+   n_long = l, ll, j, z, t, q (all 64 bits on this ABI); otherwise n_short = 0: none (int),
+   1: h (short), 2: hh (char).  For f conversions n_long = the `l` that scan_from_with looks for. *)
 Record nspec := { n_conv : byte; n_long : bool; n_plus : bool; n_space : bool; n_zero : bool;
-                  n_alt : bool; n_width : nat; n_prec : option nat }.
+                  n_alt : bool; n_width : nat; n_prec : option nat; n_short : nat }.
 
 Definition conv_signed (c : byte) : bool := (c =? 100) || (c =? 105).          (* d i *)
 Definition conv_is_int (c : byte) : bool :=
@@ -130,12 +133,17 @@ Definition two31 : Z := 2147483648%Z.
 Definition wrap_signed (m half : Z) (z : Z) : Z :=
   let w := (z mod m)%Z in if (w <? half)%Z then w else (w - m)%Z.
 
+(* half the range of the C type the directive names: 2^63 (l ll j z t q), 2^31 (none), 2^15 (h), 2^7 (hh) *)
+Definition spec_half (sp : nspec) : Z :=
+  if n_long sp then two63
+  else match n_short sp with O => two31 | S O => 32768%Z | _ => 128%Z end.
+
 (* the argument is c_int(a) : int64_t handed to vsnprintf, which takes it as the type the
-   directive names (two's complement truncation for the 32-bit forms) *)
+   directive names (two's complement truncation for the narrower forms) *)
 Definition int_arg (sp : nspec) (z : Z) : Z :=
   if conv_signed (n_conv sp)
-  then (if n_long sp then wrap_signed two64 two63 z else wrap_signed two32 two31 z)
-  else (if n_long sp then z mod two64 else z mod two32)%Z.
+  then wrap_signed (2 * spec_half sp) (spec_half sp) z
+  else (z mod (2 * spec_half sp))%Z.
 
 Definition pad (w : nat) (c : byte) (len : nat) : text := repeat c (w - len).
 
@@ -229,8 +237,8 @@ Definition scan_int_text (conv : byte) (inp : text) : option (bool * N * nat) :=
 
 (* what ends up in `long tmp = 0` and is then handed to assign(a, $I(tmp)):
    with `l`: strtol / strtoul semantics (clamping; strtoul negates modulo 2^64);
-   without: libc stores the low 32 bits through the pointer, the upper half of tmp keeps its
-   zeros; signext = the repaired scanner converts a d/i result back to a signed int. *)
+   without: libc stores the low 32 (h: 16, hh: 8) bits through the pointer, the rest of tmp keeps
+   its zeros; signext = the repaired scanner converts a d/i result back to the signed type. *)
 Definition store_int (signext : bool) (sp : nspec) (neg : bool) (mag : N) : Z :=
   let m := Z.of_N mag in
   let v64 :=
@@ -240,8 +248,8 @@ Definition store_int (signext : bool) (sp : nspec) (neg : bool) (mag : N) : Z :=
     else (if (two64 - 1 <? m)%Z then (two64 - 1)%Z
           else if neg then ((two64 - m) mod two64)%Z else m) in
   if n_long sp then wrap_signed two64 two63 v64
-  else let w := (v64 mod two32)%Z in
-       if signext && conv_signed (n_conv sp) then wrap_signed two32 two31 w else w.
+  else let w := (v64 mod (2 * spec_half sp))%Z in
+       if signext && conv_signed (n_conv sp) then wrap_signed (2 * spec_half sp) (spec_half sp) w else w.
 
 (* ------------------------------------------------------------------ floats *)
 
@@ -375,13 +383,14 @@ Inductive ty := TInt | TFloat | TStr.
 (* what the C text fixes (re-extracted into Generated.v on every run) *)
 Record config := { cf_show_esc : list (N * N); cf_look_esc : list (N * N); cf_look_cont : bool;
                    cf_float_look_long : bool; cf_int_signext : bool;
+                   cf_int_signext_narrow : bool;   (* the sign is restored for h / hh directives as well *)
                    cf_lit_measure : bool;    (* literal pieces advance pos by what scanf consumed (%n) *)
                    cf_pct_measure : bool     (* the %% piece advances pos by what scanf consumed (%n) *) }.
 
 Definition spec_li : nspec := {| n_conv := 105; n_long := true; n_plus := false; n_space := false;
-                                 n_zero := false; n_alt := false; n_width := 0; n_prec := None |}.
+                                 n_zero := false; n_alt := false; n_width := 0; n_prec := None; n_short := 0 |}.
 Definition spec_f (long : bool) : nspec := {| n_conv := 102; n_long := long; n_plus := false; n_space := false;
-                                 n_zero := false; n_alt := false; n_width := 0; n_prec := None |}.
+                                 n_zero := false; n_alt := false; n_width := 0; n_prec := None; n_short := 0 |}.
 
 (* print side: one element of a format string with its argument *)
 Inductive pitem :=
@@ -434,11 +443,15 @@ Inductive sres :=
 | SOk (vals : list value) (pos : nat)
 | SRaise (vals : list value).          (* FormatError; vals = targets assigned before *)
 
+(* does scan_from_with give a d/i result of this directive its sign back? *)
+Definition int_restore (cf : config) (sp : nspec) : bool :=
+  match n_short sp with O => cf_int_signext cf | _ => cf_int_signext_narrow cf end.
+
 (* one conversion applied to the remaining input: (value, consumed) *)
 Definition scan_num (cf : config) (sp : nspec) (inp : text) : option (value * nat) :=
   if conv_is_int (n_conv sp) then
     match scan_int_text (n_conv sp) inp with
-    | Some (neg, mag, n) => Some (VInt (store_int (cf_int_signext cf) sp neg mag), n)
+    | Some (neg, mag, n) => Some (VInt (store_int (int_restore cf sp) sp neg mag), n)
     | None => None
     end
   else if conv_is_float (n_conv sp) then
